@@ -35,7 +35,7 @@ fuzz_target!(|data: &[u8]| {
     while !u.is_empty() && sets.len() < 64 {
         sets.push((u.arbitrary().unwrap_or(0), u.arbitrary().unwrap_or(0), u.arbitrary().unwrap_or(true)));
     }
-    let c = EditedCase { w, h, seed, sets, fills, origin };
+    let c = EditedCase { w, h, seed, sets, fills, origin, probes: if seed & 1 == 1 { vec![(seed >> 8) as u16] } else { vec![] } };
     if let Err(m) = check_edited(&c, &mut st) {
         common::violation("C07", "edited", serde_json::to_value(&c).unwrap(), m);
     }
